@@ -21,7 +21,7 @@ from pyvc import units, ground, source
 from pyvc.values import SymErr
 from pyvc.solve import solve_all
 from contracts import astwriter
-from bounded import astnative
+from bounded import astnative, trivianative
 
 _UNPARSED = r'''
 import sys, json
@@ -87,10 +87,10 @@ def run(tier, seed):
                 chk.undecide(ob.name)
         ground.account(chk, [('SHAPE:no-silent-loss/the check runs before anything is yielded and raises ParserError', ok_exc and before == ['self._pos = 0'], str(before))], 'SHAPE')
     except SymErr as e:
-        # the check is missing or changed shape: on the pinned (unfixed) tree there was none at all
-        chk.count('SHAPE', 'failed', 0.0, 'SHAPE:no-silent-loss/to_lines checks that the parser consumed every non-trivia token before writing')
-        chk.violation('SHAPE:no-silent-loss/to_lines checks that the parser consumed every non-trivia token before writing',
-                      {'solver_output': 'region not found: %s' % e}, False)
+        # the check is missing or changed shape (on the pinned, unfixed tree there was none at all): a structural failure -- a
+        # violation only together with a natively observed silent loss (the run on unparsed inputs below), otherwise undecided
+        ground.account(chk, [('SHAPE:no-silent-loss/to_lines checks that the parser consumed every non-trivia token before writing', False,
+                              'region not found or outside the subset: %s' % e)], 'SHAPE')
     ground.account(chk, astwriter.emission_obligations(), 'SCAN')
     verif = os.path.dirname(os.path.dirname(os.path.abspath(__file__)))
     un = unparsed(verif)
@@ -99,12 +99,19 @@ def run(tier, seed):
     for d, what in ((un, 'unparsed inputs'), (nat, 'grammar run')):
         if d.get('timeout') or d.get('error'):
             chk.undecide('BOUNDED:c09/%s did not finish: %s' % (what, d.get('error') or 'timeout'))
-    nbad = (un.get('bad') or []) + (nat.get('bad') or [])
+    tri = trivianative.run(4 if big else 3, tuple(range(9)) if big else (0, 2, 5))
+    if tri.get('timeout') or tri.get('error'):
+        chk.undecide('BOUNDED:c09/trivia-run enumeration did not finish: %s' % (tri.get('error') or 'timeout'))
+        tri = {}
+    nbad = (un.get('bad') or []) + (nat.get('bad') or []) + (tri.get('bad9') or [])
     chk.bounded = {'rule': 'BOUNDED: %d reference-grammar programs x 6 layouts x indent widths %s through LuaFormatterWriter: succeeds; tokens and '
                            'comments identical under the reference tokenizer; output parses to the same tree; token count unchanged. Plus %d '
                            'runs of the three tree-driven writers on lexable-but-unparsed inputs (a stray token / newer syntax inserted at every '
-                           'statement position): must raise or keep every token' % (nat.get('programs', 0), 'all 0-8' if big else '{0,2,5}', un.get('n', 0)),
-                   'evaluations': nat.get('runs', 0) + un.get('n', 0), 'failures': len(nbad)}
+                           'statement position): must raise or keep every token.  Plus EXHAUSTIVE: all %d trivia runs of up to %d symbols (blank, tab, LF, CRLF, '
+                           'comment lines) at the start, between statements (depth 0 and 2) and at the end of the code, degenerate endings included: '
+                           'luafmt succeeds and keeps tokens and comments'
+                           % (nat.get('programs', 0), 'all 0-8' if big else '{0,2,5}', un.get('n', 0), tri.get('runs', 0), tri.get('n', 0)),
+                   'evaluations': nat.get('runs', 0) + un.get('n', 0) + tri.get('evaluations', 0), 'failures': len(nbad)}
     chk.native_witness = nbad
     if nbad:
         for v in chk.violations:
